@@ -72,7 +72,8 @@ def crash_key(ck: Check, st: Dict[str, Any]) -> Optional[str]:
             continue
         if cls.get("exc") != st.get("exc"):
             continue
-        if st.get("site") not in cls.get("sites", []):
+        site = st.get("site") or "?"
+        if not any(site == pat or (pat.endswith("*") and site.startswith(pat[:-1])) for pat in cls.get("sites", [])):
             continue
         if cls.get("via") and cls["via"] not in (st.get("chain") or []):
             continue
@@ -557,7 +558,8 @@ def run(ck: Check) -> None:
         if idx < n_corpus:
             exp = inp["corpus"].get("expect", {})
             st = sts.get(exp.get("stage", "parse"), {})
-            same = (st.get("cls") == "crash" and st.get("exc") == exp.get("exc") and st.get("site") == exp.get("site"))
+            same = (st.get("cls") == "crash" and st.get("exc") == exp.get("exc")
+                    and (exp.get("site_any") or st.get("site") == exp.get("site")))
             if exp.get("cls") == "crash" and not same:
                 kf = [k for k in ck.known if k.get("key") == inp["corpus"].get("key")]
                 if kf and kf[0].get("status") == "known":
